@@ -342,6 +342,39 @@ fn case_codec(ctx: &mut Ctx, seed: u64, case: &Value) {
         ctx.report.count("codec:minmax-not-tight");
         modelv(ctx, "C08:stats-not-tight", format!("{dist} x{n}: freshly serialized column reports min/max {mn}/{mx}, exact {exact_min}/{exact_max} (StatsCollector model is exact)"), case);
     }
+    // the bitpacked reader's range transformation as the current source has it (with or without the
+    // `range.end() < min` guard, re-extracted on every run): the model predicts the reported rows
+    if chosen == 0 && n > 0 {
+        let gcd: u64 = ms.split(' ').nth(2).and_then(|t| t.parse().ok()).unwrap_or(1).max(1);
+        for round in 0..3 {
+            let (lo, hi) = match round {
+                0 => { let a = vals[rng.usize_below(n)]; (a.saturating_sub(p2(&mut rng, 20)), a.saturating_add(p2(&mut rng, 20))) }
+                1 => { let hi = mn.saturating_sub(1 + p2(&mut rng, 30)); (hi.saturating_sub(p2(&mut rng, 30)), hi) } // below the minimum
+                _ => { let a = rng.next_u64() >> rng.below(64); (a, a.saturating_add(p2(&mut rng, 40))) }
+            };
+            let mut pos = vec![];
+            col.get_row_ids_for_value_range(lo..=hi, 0..n as u32, &mut pos);
+            let t = ctx.model.ask(&format!("C08 transform {mn} {gcd} {lo} {hi}"));
+            let predicted: Vec<u32> = match t.split_once(' ') {
+                Some((a, b)) => {
+                    let (a, b): (u64, u64) = (a.parse().unwrap_or(1), b.parse().unwrap_or(0));
+                    (0..n).filter(|&i| { let x = (vals[i] - mn) / gcd; x >= a && x <= b }).map(|i| i as u32).collect()
+                }
+                None => vec![],
+            };
+            ctx.report.count(if t == "none" { "range-transform:none" } else { "range-transform:some" });
+            if pos != predicted {
+                modelv(ctx, "C08:range-transform-model", format!("{dist} x{n}: get_row_ids_for_value_range({lo}..={hi}) reports {} rows, the model of transform_range_before_linear_transformation ({t}) predicts {}", pos.len(), predicted.len()), case);
+                break;
+            }
+            let brute: Vec<u32> = (0..n).filter(|&i| vals[i] >= lo && vals[i] <= hi).map(|i| i as u32).collect();
+            if pos != brute {
+                let min_rows: Vec<u32> = (0..n).filter(|&i| vals[i] == mn).map(|i| i as u32).collect();
+                let key = if lo <= hi && hi < mn && pos == min_rows { "C08:range-below-min-returns-min-rows" } else { "C08:codec-range-lookup" };
+                oracle(ctx, key, format!("{dist} x{n}, codec 0: get_row_ids_for_value_range({lo}..={hi}) = {} rows, brute force {} (column min {mn}, max {mx})", pos.len(), brute.len()), case);
+            }
+        }
+    }
     // the other direction: real decoder on model-encoded bytes
     if n <= 1100 {
         for c in &codecs {
@@ -742,8 +775,11 @@ pub fn run(ctx: &mut Ctx) {
         "serialize_optional_index bytes = model optEnc (byte exact, incl. sparse/dense switch at the threshold)".into(),
         "model rank / rank_if_exists / select on real optional-index bytes = real = brute force".into(),
         "i64_to_u64 / f64_to_u64 and inverses: real = extracted Gen functions".into(),
+        "rows reported by the bitpacked range lookup = rows predicted by the model of transform_range_before_linear_transformation (guard re-extracted)".into(),
         "column index + values of real columnar files cross-decoded by the model (cardinality, optional index, start offsets, values)".into(),
         "merge row mapping: read(model mergeShuffled / mergeStacked) = real merged column rows".into(),
+        "model decode of real compact-space (IP) column bytes = indexed u128 values; footer min/max equal".into(),
+        "cardinality of every written column = the model of ColumnWriter (op log, delta_with_last_doc); model writer reads back its rows".into(),
     ];
     if let Some(case) = ctx.replay.clone() {
         replay(ctx, &case);
